@@ -1,0 +1,67 @@
+//go:build verif
+
+package git
+
+// Contracts checked by /verif (vcgo). Comment-only: no executable code.
+// C15: the summaries are consistent with the parsed history.
+
+//@ spec rec AuthIn(ms []CommitMessage, n int, a string) bool := n <= 0 ? false : (AuthIn(ms, n - 1, a) || ms[n - 1].Author == a)
+//@ spec rec FileInC(cs []FileChange, n int, f string) bool := n <= 0 ? false : (FileInC(cs, n - 1, f) || cs[n - 1].File == f)
+//@ spec rec FileIn(ms []CommitMessage, n int, f string) bool := n <= 0 ? false : (FileIn(ms, n - 1, f) || FileInC(ms[n - 1].Changes, len(ms[n - 1].Changes), f))
+
+// number of distinct authors / paths: the cardinality of any set with exactly those members
+//@ spec DistinctAuthors(ms []CommitMessage) int
+//@ axiom DistinctAuthors_def: forall ms []CommitMessage, m map[string]string :: {len(m), DistinctAuthors(ms)}
+//@    (forall a string :: {a in m} (a in m) <==> AuthIn(ms, len(ms), a)) ==> len(m) == DistinctAuthors(ms)
+//@ spec DistinctFiles(ms []CommitMessage) int
+//@ axiom DistinctFiles_def: forall ms []CommitMessage, m map[string]string :: {len(m), DistinctFiles(ms)}
+//@    (forall f string :: {f in m} (f in m) <==> FileIn(ms, len(ms), f)) ==> len(m) == DistinctFiles(ms)
+
+//@ func BasicSummary
+//@ ensures result != nil
+//@ ensures (*result).Commits == len(commitMessages)
+//@ ensures (*result).Authors == DistinctAuthors(commitMessages)
+//@ ensures (*result).Entities == DistinctFiles(commitMessages)
+//@ loop 1 invariant authors != nil && entities != nil
+//@ loop 1 invariant forall a string :: {a in authors} {AuthIn(commitMessages, #i, a)} (a in authors) <==> AuthIn(commitMessages, #i, a)
+//@ loop 1 invariant forall f string :: {f in entities} {FileIn(commitMessages, #i, f)} (f in entities) <==> FileIn(commitMessages, #i, f)
+//@ loop 2 invariant authors != nil && entities != nil
+//@ loop 2 invariant forall a string :: {a in authors} (a in authors) <==> AuthIn(commitMessages, #i1 + 1, a)
+//@ loop 2 invariant forall f string :: {f in entities} {FileInC(commitMessage.Changes, #i, f)} (f in entities) <==> (FileIn(commitMessages, #i1, f) || FileInC(commitMessage.Changes, #i, f))
+
+//@ spec rec CommitsBy(ms []CommitMessage, n int, a string) int := n <= 0 ? 0 : CommitsBy(ms, n - 1, a) + (ms[n - 1].Author == a ? 1 : 0)
+//@ spec rec NetC(cs []FileChange, n int) int := n <= 0 ? 0 : NetC(cs, n - 1) + cs[n - 1].Added - cs[n - 1].Deleted
+//@ spec rec LinesBy(ms []CommitMessage, n int, a string) int := n <= 0 ? 0 : LinesBy(ms, n - 1, a) + (ms[n - 1].Author == a ? NetC(ms[n - 1].Changes, len(ms[n - 1].Changes)) : 0)
+//@ spec RightRow(ms []CommitMessage, t TopAuthor) bool := AuthIn(ms, len(ms), t.Name) && t.CommitCount == CommitsBy(ms, len(ms), t.Name) && t.LineCount == LinesBy(ms, len(ms), t.Name)
+
+// every author of the history has exactly one row with its commit count and net lines; rows are in non-increasing order of commits
+//@ func GetTopAuthors
+//@ ensures forall k int :: {result[k]} 0 <= k && k < len(result) ==> RightRow(commitMessages, result[k])
+//@ ensures forall a string :: {AuthIn(commitMessages, len(commitMessages), a)} AuthIn(commitMessages, len(commitMessages), a) ==> (exists k int :: 0 <= k && k < len(result) && result[k].Name == a)
+//@ ensures forall i int, j int :: {result[i], result[j]} 0 <= i && i < j && j < len(result) ==> result[i].CommitCount >= result[j].CommitCount
+//@ loop 1 invariant authors != nil
+//@ loop 1 invariant forall a string :: {a in authors} {AuthIn(commitMessages, #i, a)} (a in authors) <==> AuthIn(commitMessages, #i, a)
+//@ loop 1 invariant forall a string :: {authors[a]} (a in authors) ==> (authors[a] != nil && Allocated(authors[a]) && (*authors[a]).Name == a &&
+//@     (*authors[a]).CommitCount == CommitsBy(commitMessages, #i, a) && (*authors[a]).LineCount == LinesBy(commitMessages, #i, a))
+//@ loop 1 invariant forall a string, b string :: {authors[a], authors[b]} (a in authors) && (b in authors) && a != b ==> authors[a] != authors[b]
+//@ loop 1 invariant forall a string :: {a in authors} !(a in authors) ==> (CommitsBy(commitMessages, #i, a) == 0 && LinesBy(commitMessages, #i, a) == 0)
+//@ loop 2 invariant forall a string :: {a in authors} !(a in authors) ==> (CommitsBy(commitMessages, #i1 + 1, a) == 0 && LinesBy(commitMessages, #i1, a) == 0)
+//@ loop 2 invariant authors != nil && (commitMessage.Author in authors)
+//@ loop 2 invariant forall a string :: {a in authors} (a in authors) <==> AuthIn(commitMessages, #i1 + 1, a)
+//@ loop 2 invariant forall a string :: {authors[a]} (a in authors) ==> (authors[a] != nil && Allocated(authors[a]) && (*authors[a]).Name == a &&
+//@     (*authors[a]).CommitCount == CommitsBy(commitMessages, #i1 + 1, a) &&
+//@     (*authors[a]).LineCount == LinesBy(commitMessages, #i1, a) + (a == commitMessage.Author ? NetC(commitMessage.Changes, #i) : 0))
+//@ loop 2 invariant forall a string, b string :: {authors[a], authors[b]} (a in authors) && (b in authors) && a != b ==> authors[a] != authors[b]
+//@ loop 3 invariant forall k int :: {topAuthors[k]} 0 <= k && k < len(topAuthors) ==> RightRow(commitMessages, topAuthors[k])
+//@ loop 3 invariant forall a string :: {Visited(a)} Visited(a) ==> (exists k int :: 0 <= k && k < len(topAuthors) && topAuthors[k].Name == a)
+
+// git's rename notation pre{old => new}post: old path pre+old+post, new path pre+new+post, where an empty side
+// leaves no doubled slash (a/{b => }/c.go names a/b/c.go and a/c.go)
+//@ spec MvGroup(f string, i int) string := ReGroup(f, "(.*)\\{(.*)\\s=>\\s(.*)\\}(.*)", i)
+//@ spec IsBraceMove(f string) bool := ReMatch(f, "(.*)\\{(.*)\\s=>\\s(.*)\\}(.*)")
+//@ spec Glue(pre string, mid string, post string) string := (mid == "") ? (pre + (HasPrefix(post, "/") ? post[1:] : post)) : (pre + mid + post)
+
+//@ func UpdateMessageForChange
+//@ ensures !IsBraceMove(changedFile) ==> result0 == changedFile && result1 == changedFile && result2 == changedFile
+//@ ensures IsBraceMove(changedFile) ==> result1 == Glue(MvGroup(changedFile, 1), MvGroup(changedFile, 2), MvGroup(changedFile, 4))
+//@ ensures IsBraceMove(changedFile) ==> result2 == Glue(MvGroup(changedFile, 1), MvGroup(changedFile, 3), MvGroup(changedFile, 4)) && result0 == result2
